@@ -192,6 +192,7 @@ class Effects:
         _REPO[0] = repo
         self.funcs: List[FuncInfo] = list(repo.all_functions())
         self.summ: Dict[str, Summary] = {f.qualname: Summary() for f in self.funcs}
+        self._imm_elem_cache: Dict = {}
         self.by_name: Dict[str, List[FuncInfo]] = {}
         for f in self.funcs:
             self.by_name.setdefault(f.name, []).append(f)
@@ -245,6 +246,25 @@ class Effects:
 
     def default_origin(self, f: FuncInfo, p: str):
         return ("S", f"default of {f.qualname}({p})")
+
+    def immutable_elements(self, origin) -> bool:
+        """is the origin a class-level container annotated (Dict[int, SomeEnum], Tuple[int, ...], List[str] ...) to hold only immutable
+        element types — builtin scalars, tuples, enumeration classes of the repository?"""
+        if not (isinstance(origin, tuple) and origin[0] == "S" and "." in origin[1] and ":" in origin[1]):
+            return False
+        key = ("imm-elems", origin[1])
+        if key in self._imm_elem_cache:
+            return self._imm_elem_cache[key]
+        res = False
+        clsq, attr = origin[1].rsplit(".", 1)
+        ci = next((c for c in self.repo.all_classes() if c.qualname == clsq), None)
+        ann = ci.annotations.get(attr) if ci is not None else None
+        if ann is not None:
+            names = ann_names(ann) - {"Dict", "dict", "List", "list", "Tuple", "tuple", "Set", "set", "FrozenSet", "frozenset", "Sequence", "Mapping", "Optional", "Union", "Final", "ClassVar"}
+            enums = {c.name for c in self.repo.all_classes() if self.repo.is_enum(c)}
+            res = bool(names) and all(n_ in IMM_ANN or n_ in enums for n_ in names)
+        self._imm_elem_cache[key] = res
+        return res
 
     def class_attr_origin(self, ci: ClassInfo, attr: str) -> Optional[Val]:
         """class-level attribute looked up through the MRO: None if there is none; a Val (shared origin if mutable)"""
@@ -825,6 +845,10 @@ class FuncWalk:
             if isinstance(n.slice, ast.Tuple):
                 return Val(E, base.reach, "?")                # a[i, j]: a scalar
             return Val(base.own, base.reach, "np")            # a[i]: a row VIEW of a 2-D array (a scalar of a 1-D one: cannot be mutated anyway)
+        if base.own and all(self.eff.immutable_elements(o) for o in base.own):
+            # an element of a class-level table whose annotation says it holds only immutable values (ints, texts, tuples,
+            # members of an enumeration): a value, not a handle on the table
+            return FRESH_IMM
         return Val(base.reach, base.reach, "?")
 
     def e_Slice(self, n, env):
